@@ -10,7 +10,7 @@ the term with the corresponding meaning.  Obligation: value(result) == den_op(va
 import z3 as _z3
 
 from pyvc.api import *
-from pyvc.values import HostModule, HostFn
+from pyvc.values import HostModule, HostFn, Opaque
 
 ZB = "cspuz/backend/z3.py"
 EX = "cspuz/expr.py"
@@ -126,7 +126,9 @@ def convert_operator(case):
         kinds = [k1] * case.arity
     children, vals = [], []
     for j, kd in enumerate(kinds):
-        c = OBJ(EX, "BoolExpr" if kd == "bool" else "IntExpr", op=attr(Op, "NOT" if kd == "bool" else "NEG"), operands=mklist([]))
+        # a child is an expression of UNKNOWN shape: the contract covers code that hands it to the recursive call; code that looks
+        # at its operator or operands (a peephole rewrite over nested nodes) is outside this per-operator contract
+        c = OBJ(EX, "BoolExpr" if kd == "bool" else "IntExpr", op=Opaque("operator of a child node"), operands=Opaque("operands of a child node"))
         children.append(c)
         vals.append(sbool("v%d" % j) if kd == "bool" else sint("v%d" % j))
     e = OBJ(EX, "BoolExpr" if rk == "bool" else "IntExpr", op=attr(Op, case.op), operands=mklist(children))
